@@ -285,4 +285,78 @@ example :
     res.sent.map (fun s => (getFirst AUTHORIZATION s.headers).map (·.value)) =
       [some (S "Bearer A"), some (S "Basic B"), none] := by decide +kernel
 
+/-! ## connection faults: the peer closes a connection without answering (`Reply.drop`) -/
+
+/-- the run of `ClientSession._request` when some requests are never answered -/
+abbrev requestF (env : Env) (cfg : Cfg) (url : Url) (params : Option Str) (method : Str)
+    (defaults headers : List (Str × Str)) (cookies : Option (List (Str × Str))) (data : Option Body)
+    (jar0 : env.jar.σ) (chain : List Reply) : Result :=
+  runF env cfg (initF env cfg url params method defaults headers cookies data jar0) chain
+
+/-- Without faults the fault-aware loop is the plain loop (from any state), so everything above
+is about `runF` on fault-free chains too. -/
+theorem faultfree_runF_is_run (env : Env) (cfg : Cfg) (st : St env.jar.σ) (chain : List Resp) :
+    runF env cfg st (chain.map Reply.resp) = run env cfg st chain :=
+  runF_resp_eq_run chain st
+
+/-- **Secrets stay confined under connection faults too**: `secrets_confined` for chains in
+which any requests are dropped by the peer and transparently resent. -/
+theorem secrets_confined_under_faults (env : Env) (cfg : Cfg) (url : Url) (params : Option Str) (method : Str)
+    (defaults headers : List (Str × Str)) (cookies : Option (List (Str × Str))) (data : Option Body)
+    (jar0 : env.jar.σ) (chain : List Reply) :
+    let sent := (requestF env cfg url params method defaults headers cookies data jar0 chain).sent
+    ∀ sk ∈ sent, ∀ hd ∈ sk.headers, isSecretName hd.name = true → ∀ p ∈ hd.provs,
+      p.birth ≤ sk.idx ∧
+      ∀ sj ∈ sent, p.birth ≤ sj.idx → sj.idx ≤ sk.idx → sj.url.origin = sk.url.origin := by
+  intro sent sk hk hd hhd hsec p hp
+  have ⟨hok, hstreak⟩ := runF_trace (cfg := cfg) chain _ (initF_inv env cfg url params method defaults headers cookies data jar0)
+  obtain ⟨htag, _, _, _, _⟩ := hok sk hk
+  have hb := htag hd hhd hsec p hp
+  refine ⟨hb.2, ?_⟩
+  intro sj hj h1 h2
+  exact hstreak sj hj sk hk (Nat.le_trans hb.1 h1) h2
+
+/-- **Termination under faults: the redirect budget plus ONE resend per call.**  Whatever the
+peer drops, at most `max_redirects` requests are put on the wire, plus one if the call has a
+resend allowance (`_retry_connection` and an idempotent first method).  The allowance is never
+renewed by a redirect hop. -/
+theorem at_most_max_redirects_plus_one_resend (env : Env) (cfg : Cfg) (url : Url) (params : Option Str) (method : Str)
+    (defaults headers : List (Str × Str)) (cookies : Option (List (Str × Str))) (data : Option Body)
+    (jar0 : env.jar.σ) (chain : List Reply) (hmax : cfg.maxRedirects ≠ 0) :
+    (requestF env cfg url params method defaults headers cookies data jar0 chain).sent.length ≤
+      cfg.maxRedirects + (if cfg.retryConnection && isIdempotent method then 1 else 0) := by
+  have hinv := initF_inv env cfg url params method defaults headers cookies data jar0
+  exact runF_count hmax chain _ hinv (by show 0 < cfg.maxRedirects; omega)
+
+/-- **One transparent resend per call.**  Among the replies consumed by the call, the number of
+dropped connections is at most the allowance (0 or 1) plus one - and that extra one is the
+drop that ends the call with `ServerDisconnectedError`.  So a second disconnect is always
+reported, never silently resent. -/
+theorem one_resend_per_call (env : Env) (cfg : Cfg) (url : Url) (params : Option Str) (method : Str)
+    (defaults headers : List (Str × Str)) (cookies : Option (List (Str × Str))) (data : Option Body)
+    (jar0 : env.jar.σ) (chain : List Reply) :
+    let res := requestF env cfg url params method defaults headers cookies data jar0 chain
+    dropsIn chain res.sent.length ≤
+      (if cfg.retryConnection && isIdempotent method then 1 else 0) + (if res.out = .err .disconnected then 1 else 0) := by
+  intro res
+  have hinv := initF_inv env cfg url params method defaults headers cookies data jar0
+  exact runF_drops (cfg := cfg) chain _ hinv
+
+/-- non-vacuity / the allowance at work: a dropped first attempt is resent once (3 requests for
+2 hops), a second drop ends the call with the disconnect error -/
+example :
+    let r302 : Reply := .resp ⟨302, .ok url0, 0⟩
+    let res1 := requestF env0 {} url0 none GET [] [] none none () [.drop, r302, .resp ⟨200, .none, 0⟩]
+    let res2 := requestF env0 {} url0 none GET [] [] none none () [.drop, r302, .drop, .resp ⟨200, .none, 0⟩]
+    (res1.sent.length = 3 ∧ res1.out = .ok 1 [0]) ∧ (res2.sent.length = 3 ∧ res2.out = .err .disconnected) := by
+  decide +kernel
+
+/-- **Deviation of the unchanged code from the literal bound (known finding C17-K2).**  The
+property says "at most max_redirects requests are made"; with the single resend the wire can
+carry `max_redirects + 1`: `max_redirects = 1`, the only request is dropped once, resent and
+answered `200` - two requests.  (The bound `at_most_max_redirects_plus_one_resend` is tight.) -/
+theorem single_resend_exceeds_max_by_one :
+    let res := requestF env0 { maxRedirects := 1 } url0 none GET [] [] none none () [.drop, .resp ⟨200, .none, 0⟩]
+    res.sent.length = 2 ∧ res.out = .ok 0 [] := by decide +kernel
+
 end Aio.C17
